@@ -383,7 +383,8 @@ package gpbft
 //@   modifies auto
 //@   maypanic
 //@   ensures[only_with_a_recorded_strong_quorum] result1 ==> old(has(q.chainSupport, key) && q.chainSupport[key].hasStrongQuorum)
-//@   ensures[signers_are_table_indices_in_increasing_order] result1 ==> forall(j, 0, len(result0.Signers), 0 <= result0.Signers[j] && result0.Signers[j] < len(q.powerTable.Entries)) && forall(j, 0, len(result0.Signers) - 1, result0.Signers[j] <= result0.Signers[j+1], trigger(result0.Signers[j]))
+//@   ensures[signers_are_table_indices] result1 ==> forall(j, 0, len(result0.Signers), 0 <= result0.Signers[j] && result0.Signers[j] < len(q.powerTable.Entries), trigger(result0.Signers[j]))
+//@   ensures[signers_are_in_increasing_order] result1 ==> forall(j, 0, len(result0.Signers) - 1, result0.Signers[j] <= result0.Signers[j+1], trigger(result0.Signers[j]))
 //@   ensures[one_signature_per_signer] result1 ==> len(result0.Signatures) == len(result0.Signers) && len(result0.Signers) > 0
 //@   at return 2
 //@     before[the_listed_signers_power_is_a_strong_quorum] justificationPower == isum(q.powerTable.ScaledPower, signers, i + 1) && res(IsStrongQuorum, 1) && argOf(IsStrongQuorum, 1, 0) == justificationPower && argOf(IsStrongQuorum, 1, 1) == q.powerTable.ScaledTotal
